@@ -9,7 +9,9 @@ from harness import c08_lib as L
 PROP = "C08"
 COQ = dict(imports=["Model.Render", "Spec.C08"], in_ty="c08_in", out_ty="c08_out", corr="corr_C08", decide="check_C08",
            inclass="inclass_C08", model="model_C08")
-THEOREMS = ["py_repr_roundtrip"]
+THEOREMS = ["py_repr_roundtrip", "C08_lex_tokens", "C08_all_leaves_via_repr", "C08_tokens", "C08_eval", "C08_decider_sound",
+            "C08_main", "C08_eval_refuted_default_quotes", "C08_eval_refuted_quote_flag", "C08_eval_refuted_drop_table_types",
+            "C08_eval_refuted_batch_prefix", "C08_prefix_raw_quote_refuted"]
 TRUSTED = [
     "CPython's parser for the step from the token list to the call tree (ast.parse on the real text is part of the correspondence)",
     "str.isprintable enters py_repr as a Section variable (the round trip is proved for every oracle)",
